@@ -68,6 +68,14 @@ impl Node {
         }
     }
 
+    pub fn clone_for_bg(&self) -> Node {
+        Node {
+            ctx: Arc::clone(&self.ctx),
+            renderer: self.renderer.clone(),
+            user: self.user.clone(),
+        }
+    }
+
     pub async fn exec(&self, line: &str) -> Outcome {
         let line_owned = line.to_string();
         let parsed = std::panic::catch_unwind(move || parse_command(&line_owned));
